@@ -79,6 +79,8 @@ CONFIGS = {
     "shared_d2_s0_scalar": {"kind": "shared_speed_logistic", "dim": 2, "ns": 0, "noise": "gaussian-scalar"},
     "joint_d2_s1_diag": {"kind": "joint", "dim": 2, "ns": 1, "noise": "gaussian-diagonal"},
     "joint_d1_s0_scalar": {"kind": "joint", "dim": 1, "ns": 0, "noise": "gaussian-scalar"},
+    # competing events: one Weibull scale / shape (and one column of zeta) per event, all updated in the same step
+    "joint_d2_s1_diag_2events": {"kind": "joint", "dim": 2, "ns": 1, "noise": "gaussian-diagonal", "ne": 2},
     "mixture_d4_s2_diag": {"kind": "mixture_logistic", "dim": 4, "ns": 2, "noise": "gaussian-diagonal"},
 }
 NOISE_LABEL = {"gaussian-diagonal": "diagonal noise", "gaussian-scalar": "scalar noise", "bernoulli": "no noise parameter"}
@@ -171,10 +173,15 @@ def make_frame(spec, layout, missing):
     if spec["kind"] == "joint":
         df["EVENT_TIME"] = [EVENTS[IDS.index(i)][0] for i in df["ID"]]
         df["EVENT_BOOL"] = [EVENTS[IDS.index(i)][1] for i in df["ID"]]
+        if int(spec.get("ne", 1)) == 2:
+            # two competing events: the first individual has event 2 (the reader wants the highest code present), then 1, then censored
+            df["EVENT_BOOL"] = [[2, 1, 0][IDS.index(i)] for i in df["ID"]]
     return df, feats
 
 
 def make_dataset(spec, df):
+    if spec["kind"] == "joint" and int(spec.get("ne", 1)) != 1:
+        return Dataset(Data.from_dataframe(df, "joint", factory_kws={"nb_events": int(spec["ne"])}))
     if spec["kind"] == "joint":
         return Dataset(Data.from_dataframe(df, "joint"))
     return Dataset(Data.from_dataframe(df))
